@@ -97,6 +97,9 @@ class C16(CheckBase):
         from chameleon.zpt.loader import TemplateLoader
         self.zt = zt
         self.TemplateLoader = TemplateLoader
+        from .. import trace
+        trace.install()
+        self.trace = trace
         counting = {}
         serials = [0]
 
@@ -259,8 +262,9 @@ class C16(CheckBase):
                 if ops[i][0] in ("render", "names", "use", "ctype", "load"):
                     faults[str(i)] = {"kind": ch.pick(["eio", "eio", "enoent"]),
                                       "nth": 1 + ch.choose(2)}
-        # another process rewrites an object's file *while* a use of that
-        # object is under way (just before its nth file-system call)
+        # an asynchronous exception (Ctrl-C, a failed allocation) lands in
+        # the middle of a use: at the n-th line executed inside chameleon's
+        # template / loader modules or the generated code
         def insert_op(pos, op):
             ops.insert(pos, op)
             moved = {(str(int(key) + 1) if int(key) >= pos else key): val
@@ -268,6 +272,35 @@ class C16(CheckBase):
             faults.clear()
             faults.update(moved)
 
+        if ch.coin(0.3):
+            for _ in range(1 + ch.choose(2)):
+                i = ch.choose(len(ops))
+                if ops[i][0] in ("render", "names", "use", "ctype", "load") \
+                        and str(i) not in faults:
+                    mode = ch.weighted([(5, "access"), (3, "distinct"),
+                                        (2, "raw")], "imode")
+                    if ops[i][0] != "load" and ch.coin(0.6) and \
+                            objects[ops[i][1]]["path"] != caller:
+                        # the use has something to reload ...
+                        o = objects[ops[i][1]]
+                        insert_op(i, ["write", o["path"],
+                                      newv(o["path"], allow_broken=False),
+                                      1.0, "atomic"])
+                        i += 1
+                        # ... and the object is used again afterwards
+                        k2 = ch.pick(["render", "names", "use"])
+                        insert_op(min(i + 1 + ch.choose(2), len(ops)),
+                                  [k2, ops[i][1]] +
+                                  ([ch.choose(4)] if k2 == "use" else []))
+                    faults[str(i)] = {
+                        "kind": "interrupt", "mode": mode,
+                        "nth": 1 + ch.choose(
+                            25 if mode == "access" else
+                            ch.pick([12, 60, 250])),
+                        "exc": ch.pick(["KeyboardInterrupt", "MemoryError",
+                                        "SystemExit", "KeyboardInterrupt"])}
+        # another process rewrites an object's file *while* a use of that
+        # object is under way (just before its nth file-system call)
         if ch.coin(0.3):
             for _ in range(1 + ch.choose(2)):
                 i = ch.choose(len(ops))
@@ -514,12 +547,33 @@ class C16(CheckBase):
             return None, "ValueError"
 
         # ---- run the history -------------------------------------------------
+        intr = {"it": None}
+
         def outcome(fn):
+            it = intr["it"]
+            intr["it"] = None
+            if it is not None:
+                it.count = 0
+                self.trace.arm_interrupt(it)
             try:
                 return ["ok", fn()]
-            except Exception as e:      # noqa: BLE001
+            except (Exception, KeyboardInterrupt, SystemExit) as e:  # noqa
                 return ["exc", type(e).__name__, norm_msg(str(e))[:200],
                         [c.__name__ for c in type(e).__mro__]]
+            finally:
+                self.trace.arm_interrupt(None)
+                if it is not None:
+                    if it.fired is not None:
+                        stats["fired"]["interrupt"] = \
+                            stats["fired"].get("interrupt", 0) + 1
+                        fired_intr.append(it)
+                        cover.add("interrupt:" + it.fired[1])
+                    else:
+                        # not reached in this call: it stays pending for
+                        # the next call of the same operation
+                        intr["it"] = it
+
+        fired_intr: list = []
 
         want_version: dict[int, dict] = {}
 
@@ -534,6 +588,11 @@ class C16(CheckBase):
             if faulted and got[0] == "exc" and "OSError" in got[3]:
                 # the op that met the fault may fail with it
                 cover.add("relaxed-oserror")
+                return
+            if faulted and got[0] == "exc" and fired_intr and \
+                    fired_intr[-1].name in got[3]:
+                # ... or with the asynchronous exception it was sent
+                cover.add("interrupted")
                 return
             if got[0] == "ok":
                 ok = any(w[0] == "ok" and w[1] == got[1] for w in wants)
@@ -660,6 +719,11 @@ class C16(CheckBase):
             world.plan.clear()
             world.sticky.clear()
             fired_before = sum(world.fired.values())
+            n_intr = len(fired_intr)
+            if intr["it"] is not None:
+                intr["it"] = None
+                stats["skipped"]["interrupt"] = \
+                    stats["skipped"].get("interrupt", 0) + 1
             if k == "write":
                 dwrite(op[1], op[2], op[3], op[4])
                 log.add("op", i, "write", op[1], op[2]["tag"], op[3])
@@ -766,6 +830,14 @@ class C16(CheckBase):
                         "kind": "midwrite", "nth": f["nth"], "kinds": None,
                         "action": _act}
                 f = None
+            elif f is not None and f["kind"] == "interrupt":
+                import builtins
+                it_ = self.trace.Interrupt(
+                    f["nth"], getattr(builtins, f["exc"]),
+                    distinct=f.get("mode") == "distinct",
+                    access=f.get("mode") == "access")
+                it_.name = f["exc"]
+                intr["it"] = it_
             else:
                 self._arm(world, server, f)
             with world.as_proc(server):
@@ -790,7 +862,8 @@ class C16(CheckBase):
                             % op[2])
                         got = outcome(lambda: c.render(t=t, x="X<1>"))
                         what, arg = "use", op[2]
-                    faulted = sum(world.fired.values()) > fired_before
+                    faulted = sum(world.fired.values()) > fired_before \
+                        or len(fired_intr) > n_intr
                     if mid is not None and mid["fired"]:
                         # The file was rewritten while this use was under
                         # way: the use may serve the version it already
@@ -841,7 +914,8 @@ class C16(CheckBase):
                         got = outcome(lambda: base_loader.bind(cls_)(spec))
                     else:
                         got = outcome(lambda: loader.load(spec, fmt))
-                    faulted = sum(world.fired.values()) > fired_before
+                    faulted = sum(world.fired.values()) > fired_before \
+                        or len(fired_intr) > n_intr
                     # (same name, other format = another template; the
                     # bound loader is another loader with its own registry)
                     lkey = (spec, "text" if fmt == "text" else "xml", bound)
@@ -898,7 +972,7 @@ class C16(CheckBase):
                         got = outcome(lambda: t.render(x="X<1>"))
                     else:
                         got = outcome(lambda: sorted(t.macros.names))
-                    faulted = faulted or \
+                    faulted = faulted or len(fired_intr) > n_intr or \
                         sum(world.fired.values()) > fired_before
                     opd = [k, world.rel(spec), mode]
                     if tainted_use(i, opd, lo, got, mode, None, faulted):
@@ -916,6 +990,7 @@ class C16(CheckBase):
         # the latest version of every object's file
         world.plan.clear()
         world.armed.clear()
+        intr["it"] = None
         with world.as_proc(server):
             for j, ob in enumerate(objs + list(loaded.values())):
                 if ob.real is None or not ob.auto_reload or \
